@@ -114,9 +114,68 @@ def blackbox_init(model, ci, geom, res):
 
 SANDWICH = {
     'exactpack.solvers.heat.planar_sandwich:PlanarSandwich': {'abc': (1, 0, 1, 0), 'gamma1': 'TB', 'gamma2': 'TT'},
-    'exactpack.solvers.heat.planar_sandwich_hot:PlanarSandwichHot': {'abc': (0, 1, 0, 1), 'gamma1': 'F', 'gamma2': 'F'},
+    # BC2 (flux at both ends) needs equal fluxes; Rod1D.modes_BC2 reads gamma1 only
+    'exactpack.solvers.heat.planar_sandwich_hot:PlanarSandwichHot': {'abc': (0, 1, 0, 1), 'gamma1': 'F', 'gamma2': 'F',
+                                                                     'coeff_uses': ('gamma1',)},
     'exactpack.solvers.heat.planar_sandwich_half:PlanarSandwichHalf': {'abc': (1, 0, 0, 1), 'gamma1': 'TB', 'gamma2': 'FT'},
 }
+
+
+def _param_of(n, ci=None):
+    """Name of the parameter a node certainly equals: the parameter itself, `kwargs.get(k, <param k>)`, or
+    `kwargs[k] if k in kwargs else <param k>` (the symbolic parameter already stands for keyword-or-default)."""
+    if n is None:
+        return None
+    if n.kind == 'param':
+        return n.val
+    if n.kind == 'mcall' and n.val == 'get' and len(n.args) == 3 and n.args[0].kind == 'kwargs' \
+            and n.args[1].kind == 'const' and n.args[2].kind == 'param' and n.args[2].val == n.args[1].val:
+        return n.args[2].val
+    if n.kind == 'phi' and len(n.args) == 3:
+        c, a, d = n.args
+        if c is a and a.kind == 'mcall' and a.val == 'get' and len(a.args) == 2 and a.args[0].kind == 'kwargs' \
+                and a.args[1].kind == 'const' and d.kind == 'param' and d.val == a.args[1].val and ci is not None:
+            # `kwargs.get(k) or self.k`: a falsy keyword value is replaced by the default -- the same value only
+            # when the class default is itself 0
+            owner, dflt = ci.find_attr(d.val)
+            if dflt is not None and const_value(dflt) == 0:
+                return d.val
+            return None
+        if c.kind == 'cmp' and c.val in ('in', 'not in') and c.args[0].kind == 'const' and c.args[1].kind == 'kwargs':
+            if c.val == 'not in':
+                a, d = d, a
+            if a.kind == 'sub' and a.args[0].kind == 'kwargs' and a.args[1].kind == 'const' and a.args[1].val == c.args[0].val \
+                    and _param_of(d, ci) == c.args[0].val:
+                return c.args[0].val
+    return None
+
+
+def _mentions(n, target):
+    seen, todo = set(), [n]
+    while todo:
+        x = todo.pop()
+        if x is target:
+            return True
+        if x.nid in seen:
+            continue
+        seen.add(x.nid)
+        todo.extend(a for a in x.args if hasattr(a, 'nid'))
+        todo.extend(a for a in (x.kw or {}).values() if hasattr(a, 'nid'))
+    return False
+
+
+def _mentions_param(n, name, ci):
+    seen, todo = set(), [n]
+    while todo:
+        x = todo.pop()
+        if x.nid in seen:
+            continue
+        seen.add(x.nid)
+        if x.kind in ('param', 'mcall', 'phi') and _param_of(x, ci) == name:
+            return True
+        todo.extend(a for a in x.args if hasattr(a, 'nid'))
+        todo.extend(a for a in (x.kw or {}).values() if hasattr(a, 'nid'))
+    return False
 
 
 def sandwiches(model, res):
@@ -137,30 +196,31 @@ def sandwiches(model, res):
                        '%s sets (alpha1,beta1,alpha2,beta2) = %s but its documented boundary condition is %s'
                        % (ci.name, got, want['abc'])))
             ok = False
-        init = ci.methods.get('__init__')
-        if init is None:
-            res.add(_f('C07.sandwich-map', ci, 'no constructor', '%s has no constructor mapping its boundary values' % ci.name))
-            ok = False
-        else:
-            seen = {}
-            superpos = None
-            for i, st in enumerate(init.node.body):
-                if isinstance(st, ast.Assign) and len(st.targets) == 1 and src_of(st.targets[0]) in ('self.gamma1', 'self.gamma2'):
-                    v = st.value
-                    nm = None
-                    if isinstance(v, ast.Call) and src_of(v.func) == 'kwargs.get' and len(v.args) == 2 \
-                            and isinstance(v.args[0], ast.Constant) and src_of(v.args[1]) == 'self.%s' % v.args[0].value:
-                        nm = v.args[0].value
-                    seen[src_of(st.targets[0])[5:]] = (nm, i)
-                if isinstance(st, ast.Expr) and isinstance(st.value, ast.Call) and src_of(st.value.func).endswith('__init__'):
-                    superpos = i
-            for g in ('gamma1', 'gamma2'):
-                nm, pos = seen.get(g, (None, None))
-                if nm != want[g] or superpos is None or pos is None or pos > superpos:
-                    res.add(_f('C07.sandwich-map', ci, '%s mapping %s' % (g, nm),
-                               "%s must set %s from its parameter '%s' (keyword or default) before calling Rod1D.__init__; "
-                               "found %s" % (ci.name, g, want[g], nm), init.node))
-                    ok = False
+        # the constructor, executed on the value graph for symbolic keywords: gamma_i must BE the class's parameter
+        # (keyword or default, for every value including 0), and the Fourier coefficients that Rod1D.__init__
+        # computes must be computed from it (i.e. it is set before Rod1D.__init__ runs)
+        b = Builder(model)
+        objn, _ = b.run_solver(ci, run=False)
+        h = b.heap[objn.val.oid]
+        coeffs = [h[a] for a in ('An', 'Bn') if a in h]
+        if not coeffs:
+            raise AnalysisError('%s: Rod1D.__init__ no longer stores An / Bn' % ci.name)
+        for g in ('gamma1', 'gamma2'):
+            n = h.get(g)
+            got = _param_of(n, ci)
+            if got != want[g]:
+                res.add(_f('C07.sandwich-map', ci, '%s mapping %s' % (g, got),
+                           "%s must pass %s = its parameter '%s' (keyword or default, for every value) to the rod; the "
+                           "constructor stores `%s`%s" % (ci.name, g, want[g], (n.src if n is not None else None),
+                                                          ": a keyword value of 0 is replaced by the default"
+                                                          if n is not None and n.kind == 'phi' and n.args[0] is n.args[1] else ''),
+                           getattr(n, 'origin', (None, None))[1] if n is not None else None))
+                ok = False
+            elif g in want.get('coeff_uses', ('gamma1', 'gamma2')) and not any(_mentions_param(c, want[g], ci) for c in coeffs):
+                res.add(_f('C07.sandwich-map', ci, '%s set after the coefficients' % g,
+                           "%s sets %s from '%s' only after Rod1D.__init__ has computed the Fourier coefficients: the series is "
+                           "the one for the class default" % (ci.name, g, want[g]), getattr(n, 'origin', (None, None))[1]))
+                ok = False
         if ok:
             res.discharged += 1
 
